@@ -100,7 +100,12 @@ def join(a, b):
         if isinstance(a, (SeqV, Tup)) and isinstance(b, (SeqV, Tup)):
             na = a.n if isinstance(a, SeqV) else Aff(len(a.items))
             nb = b.n if isinstance(b, SeqV) else Aff(len(b.items))
-            return SeqV(join(el(a), el(b)), na if (na is not None and nb is not None and na == nb) else None, t)
+            r_ = SeqV(join(el(a), el(b)), na if (na is not None and nb is not None and na == nb) else None, t)
+            qa, qb = seq_charges(a), seq_charges(b)
+            if qa is not None and qb is not None:
+                from .charge import q_join
+                r_.qarr = q_join(qa, qb)
+            return r_
     if isinstance(a, IntV) and isinstance(b, IntV):
         if a.a is not None and b.a is not None and a.a == b.a:
             aa = a.a
@@ -171,6 +176,21 @@ def join_st(s1, s2):
         else:
             env[k] = s1.env.get(k, s2.env.get(k))
     return St(env, join_heap(s1.heap, s2.heap))
+
+
+def seq_charges(x):
+    """charges of the items of a python sequence by position (None when unknown)"""
+    if isinstance(x, SeqV):
+        return x.qarr
+    if isinstance(x, Tup):
+        d = {}
+        for i, it in enumerate(x.items):
+            q = getattr(it, 'q', None)
+            if not isinstance(it, Num) or q is None or not isinstance(q, Aff):
+                return None
+            d[Aff(i)] = q
+        return ('partial', d) if d else 'any'
+    return None
 
 
 BUILTINS = {'len', 'range', 'int', 'float', 'complex', 'abs', 'sum', 'max', 'min', 'list', 'tuple', 'reversed',
